@@ -70,3 +70,6 @@ func run(n int) {
 		}
 	}
 }
+
+// VerifWellFormed exports the RFC 3629 reference predicate to harnesses in other packages.
+func VerifWellFormed(b []byte) bool { return refUTF8(b) }
